@@ -244,6 +244,25 @@ fn grower(m: &M, me: u64, base: u64, ops: u64) -> Stats {
     st
 }
 
+/// only point lookups (present and absent keys)
+fn getter(m: &M, me: u64, span: u64, ops: u64) -> Stats {
+    let mut st = Stats::default();
+    for i in 0..ops {
+        let g = m.guard();
+        let k = (i * 7 + me) % (span + 2);
+        if i % 3 == 0 {
+            if let Some((kk, v)) = m.get_key_value(&key(k, me), &g) {
+                let a = chk_k(kk, me, &mut st.sum);
+                let b = chk_v(v, me, &mut st.sum);
+                st.get_kv += (a || b) as u64;
+            }
+        } else if let Some(v) = m.get(&key(k, me), &g) {
+            st.get += chk_v(v, me, &mut st.sum) as u64;
+        }
+    }
+    st
+}
+
 fn main() {
     let a: Vec<String> = std::env::args().collect();
     if a.len() < 6 {
@@ -305,6 +324,13 @@ fn main() {
             spawn!(|m: &M| grower(m, 2, 1000, ops * 2));
             spawn!(|m: &M| reader(m, 3, ops * 2, ops));
             spawn!(|m: &M| writer_b(m, 4, ops * 2, ops));
+        }
+        // lookups descending a tree bin while new leaves are linked in (no removals, so most
+        // inserts need no root lock: the child-link store is the only publication on that path)
+        "treeread" => {
+            spawn!(|m: &M| grower(m, 1, pre, ops));
+            spawn!(|m: &M| getter(m, 2, pre + ops, ops * 4));
+            spawn!(|m: &M| getter(m, 3, pre + ops, ops * 4));
         }
         _ => {
             eprintln!("unknown program {prog}");
